@@ -351,6 +351,10 @@ func init() {
 	})
 	register("time.After", func(fr *frame, a []value) value {
 		s := fr.sched()
+		if r := fr.run(); r.flags["fsVisible"] != 0 && fr.g != nil {
+			fs := r.FS()
+			fs.opLog = append(fs.opLog, fmt.Sprintf("%d sleep -", fr.g.pid))
+		}
 		c := fr.run().newChan(fr.typeOf("time", "Time"), 1)
 		tv := interceptTable["time.Now"](fr, nil)
 		s.addTimer(asInt64(a[0]), func() { s.timerSend(c, tv) })
